@@ -13,22 +13,27 @@
 (*   - the recorded verdict must be one Durable!Verdicts allows and must satisfy the clause of    *)
 (*     C25 (VerdictConsistent); if not, an INCONSISTENT line is printed and validation goes on.   *)
 (* A run whose operations left the protocol prints a NONCONF line.                               *)
+(* "The contents a database had when flush n completed" are taken from the run of the same        *)
+(* history without a crash (ref[n], recorded when Flush(n) returned); that run comes first.       *)
 EXTENDS SyncedPool, Json, IOUtils
 
 Trace == ndJsonDeserialize(IOEnv.TRACE)
-VARIABLES l, conf, run, last
-tvars == <<l, conf, run, last, dur, over, opened, qdrop, fl, fid, hist, ndrops, pc, res>>
+VARIABLES l, conf, run, last,
+          ref    \* flush id -> contents when Flush(id) returned in the run of this history without a crash
+tvars == <<l, conf, run, last, ref, dur, over, opened, qdrop, fl, fid, hist, ndrops, pc, res>>
 T == Trace[l]
 Is(op) == l <= Len(Trace) /\ T.op = op /\ l' = l + 1
-Keep == run' = run
+Keep == run' = run /\ ref' = ref
 Step(g, name) == conf' = (conf /\ g) /\ last' = name /\ Keep
 
-TInit == /\ TLCSet(1, 1) /\ l = 1 /\ conf = TRUE /\ run = [scen |-> 0, crash |-> 0] /\ last = "none" /\ PInit
+TInit == /\ TLCSet(1, 1) /\ l = 1 /\ conf = TRUE /\ run = [scen |-> 0, crash |-> 0] /\ last = "none" /\ ref = <<>> /\ PInit
 
 TReset == /\ Is("reset")
           /\ dur' = NoDBs /\ over' = [d \in DBs |-> NoOver] /\ opened' = {} /\ qdrop' = {}
           /\ fl' = NoFlush /\ fid' = 0 /\ hist' = <<>> /\ ndrops' = 0 /\ pc' = "run" /\ res' = [v |-> "-", id |-> 0]
           /\ conf' = TRUE /\ run' = [scen |-> T.scen, crash |-> T.crash] /\ last' = "none"
+          \* the runs of one history follow its run without a crash, whose completed flushes are the reference
+          /\ ref' = IF T.crash = 0 THEN <<>> ELSE ref
 
 TOpen == Is("open") /\ OpenE(T.db) /\ conf' = (conf /\ OpenG(T.db)) /\ Keep /\ last' = last
 TPut == Is("put") /\ PutE(T.db, T.k, T.v) /\ conf' = (conf /\ PutG(T.db, T.k, T.v)) /\ Keep /\ last' = last
@@ -38,7 +43,10 @@ TFlush == Is("flush") /\ StartFlushE(T.id) /\ conf' = (conf /\ Idle /\ T.id = fi
 TCreate == Is("create") /\ DoCreateE(T.db) /\ Step(DoCreateG(T.db), "create")
 TDirty == Is("dirty") /\ DoDirtyE(T.db) /\ Step(DoDirtyG(T.db), "dirty")
 TDrop == Is("drop") /\ DoDropE(T.db) /\ Step(DoDropG(T.db), "drop")
-TData == Is("data") /\ DoDataE(T.db, T.w) /\ Step(DoDataG(T.db, T.w), "data")
+TData == /\ Is("data")
+         /\ IF "mark" \in DOMAIN T
+            THEN DoDataMarkE(T.db, T.w, T.mark) /\ Step(FALSE, "data")      \* a mark inside a write batch is outside the protocol
+            ELSE DoDataE(T.db, T.w) /\ Step(DoDataG(T.db, T.w), "data")
 TClean == Is("clean") /\ DoCleanE(T.db, T.id) /\ Step(DoCleanG(T.db, T.id), "clean")
 
 \* Flush(id) returned: by then the protocol has completed the flush; if the recorded operations did
@@ -50,14 +58,15 @@ TFlushed == /\ Is("flushed")
                     /\ over' = [d \in DBs |-> IF d \in fl.drop THEN NoOver ELSE over[d]]
                ELSE UNCHANGED <<fl, hist, opened, qdrop, over>>
             /\ UNCHANGED <<dur, fid, ndrops, pc, res>>
-            /\ conf' = (conf /\ ~fl.on) /\ Keep /\ last' = last
+            /\ conf' = (conf /\ ~fl.on) /\ run' = run /\ last' = last
+            /\ ref' = IF run.crash = 0 THEN RecordFlush(ref, T.id, dur) ELSE ref
 
 Bound == \A d \in DBs : T.dbs[d].ex = dur[d].ex /\ T.dbs[d].mark = dur[d].mark /\ T.dbs[d].data = dur[d].data
 TRestart ==
   /\ Is("restart") /\ Bound
   /\ LET r == [v |-> T.verdict, id |-> T.id]
          allowed == r \in Verdicts(dur)
-         consistent == VerdictConsistent(dur, hist, r) IN
+         consistent == VerdictConsistent(dur, ref, r) IN
      /\ IF allowed /\ consistent THEN TRUE
         ELSE PrintT(<<"INCONSISTENT", ToJson([scen |-> run.scen, crash |-> run.crash, last |-> last, verdict |-> r,
                                              kind |-> IF allowed THEN "contents" ELSE "verdict",
